@@ -88,7 +88,7 @@ func c11Enumerate(tier string, seed int64, emit func(string, any)) {
 	emit("sched/sequential replay of the pool", c11Case{Kind: "golden"})
 	for i := 0; i < n; i++ {
 		for j := 0; j < n; j++ {
-			reps := 5
+			reps := 4
 			if thorough {
 				reps = 8
 			}
@@ -97,7 +97,7 @@ func c11Enumerate(tier string, seed int64, emit func(string, any)) {
 				continue
 			}
 			emit("sched/2 VMs", c11Case{Kind: "sched", Threads: []c11Thread{c11Pool[i], c11Pool[j]}, Bound: 1})
-			if thorough || (i+j)%5 == 0 {
+			if thorough || (i+j)%7 == 0 {
 				emit("sched/2 VMs bound 2", c11Case{Kind: "sched", Threads: []c11Thread{c11Pool[i], c11Pool[j]}, Bound: 2})
 			}
 			emit("race/2 VMs", c11Case{Kind: "race", Threads: []c11Thread{c11Pool[i], c11Pool[j]}, Reps: reps})
@@ -380,7 +380,7 @@ func diceInRange(src, ret string) string {
 func init() {
 	harn.Register(&harn.Check{
 		ID:   "C11",
-		Rule: "shim stratum: for every ordered pair of the method-using programs, additionally every mutex / atomic operation inside ValueMap is a scheduling point (sync-shim overlay build) and the shared built-in method tables are put back into their start-up state before every execution, preemption bound 1. sched strata: for every ordered pair (and a family of triples) of thread bodies from a 40-program pool chosen to collide (unseeded dice on the shared generator, seeded dice, shared native function objects and bound-method cloning, syntax errors under different languages, DefaultDiceSideExpr, computed values, functions, templates, st), each on its OWN VM, every schedule with <= 1 (a fifth: 2) preemptions at every instruction boundary of every sub-VM (VerifStep), every hooked access to package-level state (VerifShared) and the Parse entry/run points is executed; each seeded or dice-free VM must return exactly the value, error text and detail text of its isolated run; unseeded VMs the same shape, error text and in-range dice. same text / different configuration: 11 (source, default-sides expression) texts that mean different things under a configuration switch (bitwise, each dice family, statements, NdM), one VM with the switch and one without, both orders, max mode; the texts carry a number that is new for every run of the process, so the isolated baseline has never shared a text-keyed entry with another configuration while the VMs of one concurrent run do collide. race strata: the same thread bodies for every ordered pair (and triples) run free on real goroutines behind a start barrier, 5 (thorough 8; triples 4) repetitions, in a -race build; any data-race report kills the worker and is attributed to the pair. Distinct by thread list; all non-trivial (two or more VMs).",
+		Rule: "shim stratum: for every ordered pair of the method-using programs, additionally every mutex / atomic operation inside ValueMap is a scheduling point (sync-shim overlay build) and the shared built-in method tables are put back into their start-up state before every execution, preemption bound 1. sched strata: for every ordered pair (and a family of triples) of thread bodies from a 40-program pool chosen to collide (unseeded dice on the shared generator, seeded dice, shared native function objects and bound-method cloning, syntax errors under different languages, DefaultDiceSideExpr, computed values, functions, templates, st), each on its OWN VM, every schedule with <= 1 (a seventh: 2) preemptions at every instruction boundary of every sub-VM (VerifStep), every hooked access to package-level state (VerifShared) and the Parse entry/run points is executed; each seeded or dice-free VM must return exactly the value, error text and detail text of its isolated run; unseeded VMs the same shape, error text and in-range dice. same text / different configuration: 11 (source, default-sides expression) texts that mean different things under a configuration switch (bitwise, each dice family, statements, NdM), one VM with the switch and one without, both orders, max mode; the texts carry a number that is new for every run of the process, so the isolated baseline has never shared a text-keyed entry with another configuration while the VMs of one concurrent run do collide. race strata: the same thread bodies for every ordered pair (and triples) run free on real goroutines behind a start barrier, 4 (thorough 8) repetitions, in a -race build; any data-race report kills the worker and is attributed to the pair. Distinct by thread list; all non-trivial (two or more VMs).",
 		Assume: []string{"interleavings are explored at instruction-boundary / hooked-access granularity under sequential consistency; accesses inside one VM instruction are the race detector's business", "the race pass is a detector run over a complete pair set, not a schedule enumeration"},
 		Enumerate:   c11Enumerate,
 		Run:         c11Run,
